@@ -1388,7 +1388,24 @@ impl TheRing<'_> {
 
         // TODO: the above fails to handle the fact that PlainSessionKey::Unknown will not compare correctly
 
-        let is_consistent = is_sks_consistent && is_skesk_consistent && is_pkesk_consistent;
+        let mut is_consistent = is_sks_consistent && is_skesk_consistent && is_pkesk_consistent;
+
+        // the keys of each kind agree among themselves: compare the kinds with each other
+        if let (Some((_, a)), Some((_, b))) = (&pkesk_session_key, &skesk_session_key) {
+            if a != b {
+                is_consistent = false;
+            }
+        }
+        if let (Some((_, a)), Some(b)) = (&pkesk_session_key, &sks_session_key) {
+            if a != b {
+                is_consistent = false;
+            }
+        }
+        if let (Some((_, a)), Some(b)) = (&skesk_session_key, &sks_session_key) {
+            if a != b {
+                is_consistent = false;
+            }
+        }
 
         if !is_consistent {
             bail!("inconsistent session keys detected");
